@@ -7,17 +7,16 @@ import numpy as np
 from . import common
 
 PROP = "C15"
-MODULES = ["PdsVerif.Props.C15"]
+MODULES = ["PdsVerif.Props.C15"]  # imports Lemmas.Tensor, Lemmas.Post (helper lemmas; same forbidden-token grep)
 MODEL_MODULES = ["PdsVerif.Model.Tensor", "PdsVerif.Model.Post"]
 REQUIRED = [
     "PdsVerif.C15." + n
-    for n in """deltas_filts_eq deltas_filt_length deltas_shape_concat deltas_shape_stack
-    deltas_block0_is_input_concat deltas_block0_is_input_stack deltas_lane_value
-    deltas_value_concat deltas_value_stack deltas_error_iff
-    deltas_filt_eq_kaldi_scales deltas_filt_normaliser deltas_edge_eq_kaldi
-    ext_inside ext_edge ext_constant ext_wrap ext_reflect ext_symmetric
-    stack_shape stack_value stack_2d_eq_nd stack_drop stack_pad stack_short stack_error_iff
-    deltas_pure stack_pure""".split()
+    for n in """deltas_filts_eq deltas_filt_length deltas_filt_recursion deltas_filt_eq_kaldi_scales
+    deltas_filt_normaliser deltas_lane_value deltas_edge_eq_kaldi deltas_shape_concat deltas_shape_stack
+    deltas_value_concat deltas_value_stack deltas_block0_is_input_concat deltas_block0_is_input_stack
+    deltas_error_iff deltas_pure ext_inside ext_edge ext_constant ext_wrap ext_reflect ext_symmetric
+    stack_new_pos stack_2d_eq_nd stack_2d_path_eq_nd_path stack_shape stack_value stack_drop stack_pad
+    stack_short stack_error_iff stack_pure""".split()
 ]
 RULE = (
     "small-integer tensors of rank 1-4 (dims 0-5 incl. singleton and empty non-filtered axes; the filtered / time "
@@ -402,8 +401,8 @@ def line_of(c):
             c["num_deltas"], c["context_window"], c["target_axis"], 1 if c["concatenate"] else 0,
             pad_token(c["pad_mode"], c["pad_kwargs"]), "trunc" if c["dtype"].startswith("int") else "id",
             c["axis"], ints(c["shape"]), ints(c["data"]))
-    return "stack %d %d %s %d %s %s" % (
-        c["num_vectors"], c["time_axis"], pad_token(c["pad_mode"], c["pad_kwargs"]), c["axis"],
+    return "stack %d %d %s %d %d %s %s" % (
+        c["num_vectors"], c["time_axis"], pad_token(c["pad_mode"], c["pad_kwargs"]), 1 if c["in_place"] else 0, c["axis"],
         ints(c["shape"]), ints(c["data"]))
 
 
